@@ -830,8 +830,11 @@ def run(chk, replay=None):
             chk.violation(p, "C20 finding (not yet listed in KNOWN_FINDINGS.txt, key=%s): %s" % (key, msg))
     if V.bad:
         seen_kinds = set()
+        # the most direct witnesses first: a failing day, then UTC instants, then the rest
+        order = {"calendar-exhaustive": 0, "utc": 1, "timestamp-text": 2, "byte-order": 2, "inet": 2, "tzfile": 3}
+        V.bad.sort(key=lambda x: order.get(x[0].tag, 4))
         for (c, oi, msg) in V.bad:
-            kind = (c.tag, msg.split(":")[0][:30])
+            kind = (c.tag.split("-")[0], re.split(r"[ (:]", msg)[0])
             if kind in seen_kinds or len(seen_kinds) >= 4:
                 continue
             seen_kinds.add(kind)
@@ -847,7 +850,7 @@ def run(chk, replay=None):
             if not pr["ok"]:
                 what += "; proof obligations broken as well: %s" % (pr["broken"],)
             chk.violation(p, what)
-    elif corr_bad or wf_bad or not pr["ok"] or gen_fallbacks and False:
+    elif corr_bad or wf_bad or not pr["ok"]:
         what = []
         body = ""
         if not pr["ok"]:
